@@ -9,6 +9,8 @@ import (
 
 	"github.com/go-logr/logr"
 	apiclient "github.com/wrgl/wrgl/pkg/api/client"
+	"github.com/wrgl/wrgl/pkg/objects"
+	"github.com/wrgl/wrgl/pkg/ref"
 	"pgregory.net/rapid"
 
 	"verifharness/internal/evid"
@@ -35,13 +37,39 @@ func TestPropSync(t *testing.T) {
 	rapid.Check(t, func(t *rapid.T) {
 		c := Case{
 			T:        syncx.GenTopology(t, evid.Scale(4, 7)),
-			Op:       rapid.SampledFrom([]string{"fetch", "fetch", "push", "push", "pull", "session"}).Draw(t, "op"),
+			Op:       rapid.SampledFrom([]string{"fetch", "fetch", "push", "push", "pull", "session", "session", "refetch", "refetch"}).Draw(t, "op"),
 			Depth:    rapid.SampledFrom([]int{0, 0, 0, 1, 2, 3}).Draw(t, "depth"),
 			Force:    rapid.IntRange(0, 3).Draw(t, "force") == 0,
 			MaxPack:  rapid.SampledFrom([]uint64{0, 1, 300, 5000}).Draw(t, "maxpack"),
 			TableNeg: rapid.Bool().Draw(t, "tableneg"),
 			Explicit: rapid.Bool().Draw(t, "explicit"),
 			Haves:    rapid.SampledFrom([]int{1, 2, 5, 256}).Draw(t, "haves"),
+		}
+		if c.Op == "refetch" && rapid.Bool().Draw(t, "revertTemplate") {
+			// The remote branch is reset to a new commit f that sits on an older commit e_i and
+			// carries e_i's table (a revert), after a depth-limited first fetch left e_i shallow on
+			// the local side; another, newer branch both sides have keeps the negotiation going.
+			k := rapid.IntRange(2, 4).Draw(t, "chain")
+			nodes := []syncx.Node{{Owner: syncx.Both, Parents: []int{}, Table: 9, Time: 1600000000}}
+			for i := 1; i <= k; i++ {
+				nodes = append(nodes, syncx.Node{Owner: syncx.Remote, Parents: []int{i - 1}, Table: 10 + i, Time: 1600000000 + int64(i)*60})
+			}
+			old := rapid.IntRange(1, k-1).Draw(t, "revertTo")
+			nodes = append(nodes, syncx.Node{Owner: syncx.Remote, Parents: []int{old}, Table: 10 + old, Time: 1600000000 + int64(k+1)*60})
+			nodes = append(nodes, syncx.Node{Owner: syncx.Both, Parents: []int{0}, Table: 30, Time: 1600000000 + int64(k+5)*60})
+			c.T = syncx.Topology{Nodes: nodes, Refs: []syncx.Ref{
+				{Name: "heads/main", L: rapid.SampledFrom([]int{-1, 0}).Draw(t, "l"), R: k, R2: k + 1},
+				{Name: "heads/dev", L: k + 2, R: k + 2, R2: k + 2},
+			}}
+			c.Depth = rapid.IntRange(1, 2).Draw(t, "depth1")
+			c.Haves = rapid.SampledFrom([]int{1, 1, 2, 256}).Draw(t, "haves1")
+		} else if c.Op == "refetch" {
+			// few distinct tables: a new commit often carries the table of a commit that is shallow
+			// locally (what a revert produces)
+			for i := range c.T.Nodes {
+				c.T.Nodes[i].Table %= 2
+			}
+			c.Depth = rapid.SampledFrom([]int{1, 1, 2}).Draw(t, "depth1")
 		}
 		sub.Check(t, c)
 	})
@@ -143,6 +171,8 @@ func run(c Case) (o evid.Outcome, err error) {
 		}
 	case "session":
 		return runSession(c, w, o)
+	case "refetch":
+		return runRefetch(c, w, o)
 	}
 
 	before, err := w.LocalRefs()
@@ -321,6 +351,102 @@ func runSession(c Case, w *syncx.World, o evid.Outcome) (evid.Outcome, error) {
 	o.NonTrivial = st.NegotiationRounds >= 2 || st.PackfilesSent >= 2
 	o.Class("haves=%d", c.Haves)
 	if st.NegotiationRounds >= 2 {
+		o.Class("multi-round-negotiation")
+	}
+	return o, nil
+}
+
+// runRefetch: a depth-limited fetch, then the remote refs move, then a second exchange (library
+// session with a chosen number of haves per round, full depth). Everything the second exchange
+// brings must be complete.
+func runRefetch(c Case, w *syncx.World, o evid.Outcome) (evid.Outcome, error) {
+	d1 := c.Depth
+	if d1 == 0 {
+		d1 = 1
+	}
+	if out, err := w.Repo.Run("fetch", "origin", "--depth", fmt.Sprint(d1)); err != nil {
+		o.Class("command-failed")
+		evid.Note("refetch: first fetch failed: %s", firstLine(err.Error()+" "+out))
+		return o, nil
+	}
+	// the remote moves on
+	for _, r := range c.T.Refs {
+		name := r.Name
+		if r.R2 >= 0 {
+			if err := ref.SaveRef(w.Server.RS, name, w.Sums[r.R2], "remote", "r@x", "commit", "moved", nil); err != nil {
+				return o, fmt.Errorf("HARNESS: %v", err)
+			}
+		} else {
+			ref.DeleteRef(w.Server.RS, name)
+		}
+	}
+	ldb, lrs, closeL, err := w.Repo.Open()
+	if err != nil {
+		return o, fmt.Errorf("HARNESS: %v", err)
+	}
+	defer closeL()
+	had := map[int]bool{}
+	shallowBefore := 0
+	for i, s := range w.Sums {
+		if objects.CommitExist(ldb, s) {
+			had[i] = true
+			if !objects.TableExist(ldb, w.Tables[i]) {
+				shallowBefore++
+			}
+		}
+	}
+	client, err := apiclient.NewClient(w.Server.URL, logr.Discard())
+	if err != nil {
+		return o, fmt.Errorf("HARNESS: %v", err)
+	}
+	var advertised [][]byte
+	wantNodes := []int{}
+	for _, r := range c.T.Refs {
+		if r.R2 >= 0 {
+			advertised = append(advertised, w.Sums[r.R2])
+			wantNodes = append(wantNodes, r.R2)
+		}
+	}
+	if len(advertised) == 0 {
+		o.Class("nothing-to-do")
+		return o, nil
+	}
+	w.Server.ResetStats()
+	ses, err := apiclient.NewUploadPackSession(ldb, lrs, client, advertised, apiclient.WithUploadPackHavesPerRoundTrip(c.Haves))
+	if err != nil {
+		if err.Error() == "nothing wanted" {
+			o.Class("nothing-to-do")
+			return o, nil
+		}
+		return o, fmt.Errorf("NewUploadPackSession: %v", err)
+	}
+	if _, err := ses.Start(); err != nil {
+		return o, fmt.Errorf("second exchange (%d haves per round) after a depth-%d fetch: %v (server: %v)", c.Haves, d1, err, w.Server.Stats.Errors)
+	}
+	newCommits := 0
+	for _, n := range wantNodes {
+		for a := range w.G.Anc(n) {
+			if !objects.CommitExist(ldb, w.Sums[a]) {
+				return o, fmt.Errorf("after the second exchange, ancestor c%d of wanted c%d is missing", a, n)
+			}
+			if !had[a] {
+				newCommits++
+				// a commit transferred by a full-depth exchange must come with its data
+				if err := w.CheckClosure(ldb, a, 1, nil); err != nil {
+					return o, fmt.Errorf("a depth-%d fetch, then the remote moved, then a full exchange with %d haves per round: commit c%d was transferred but %v", d1, c.Haves, a, err)
+				}
+			}
+		}
+	}
+	if err := repocheck.Consistent(ldb, lrs); err != nil {
+		return o, fmt.Errorf("after the second exchange the local repository is inconsistent: %v", err)
+	}
+	o.NonTrivial = newCommits >= 1 && shallowBefore >= 1
+	o.Class("haves=%d", c.Haves)
+	if shallowBefore > 0 {
+		o.Class("shallow-commits-before-second-exchange")
+	}
+	if w.Server.Stats.NegotiationRounds >= 2 {
 		o.Class("multi-round-negotiation")
 	}
 	return o, nil
